@@ -153,8 +153,9 @@ def helpers_hold_live_objects(ctx, rule, only=('TimeoutHandler', 'ResultHandler'
     q.need(n >= floor, 'constructor sites of the helper threads not found')
 
 
-def r05_7(ctx):
-    ctx.rule('R05.7', 'the time-limit scanner keeps running after close(): only the finalizer stops it', floor=1)
+def r05_7(ctx, rule='R05.7'):
+    ctx.rule(rule, 'the time-limit scanner keeps running after close(): only the finalizer stops (or waits for) it',
+             floor=1)
     m = ctx.model
     bad = []
     n = 0
@@ -163,14 +164,20 @@ def r05_7(ctx):
             continue
         for c in [x for x in walk_own(fi.node) if isinstance(x, ast.Call)]:
             cal = fi.callee(c)
-            if cal in ('self._timeout_handler.close', 'self._timeout_handler.terminate', 'self._timeout_handler.stop'):
+            if cal in ('self._timeout_handler.close', 'self._timeout_handler.terminate', 'self._timeout_handler.stop',
+                       'self._timeout_handler.join'):
+                bad.append((fi, c))
+            # ... or handed to a helper that stops / joins a thread (stop_if_not_current(thread, timeout))
+            elif cal.split('.')[-1] in ('stop_if_not_current', '_stop_task_handler') and \
+                    any(fi.canon(a) == 'self._timeout_handler' for a in c.args):
                 bad.append((fi, c))
     tp = m.func('pool:Pool._terminate_pool')
     stops = q.calls(tp, ('timeout_handler.terminate', 'timeout_handler.stop'))
-    ctx.ob('R05.7', 'scanner-stopped-only-by-the-finalizer', not bad and len(stops) >= 2, bad[0][0] if bad else tp,
+    ctx.ob(rule, 'scanner-stopped-only-by-the-finalizer', not bad and len(stops) >= 2, bad[0][0] if bad else tp,
            bad[0][1] if bad else None,
            'no method but _terminate_pool changes the scanner\'s state' if not bad else
-           '%s stops the scanner: a job accepted before close() whose limit expires afterwards is never timed out'
+           '%s stops / waits for the scanner, which runs until terminate(): a job accepted before close() whose limit '
+           'expires afterwards is never timed out, and a join() that waits for the scanner never returns'
            % bad[0][0].qual)
 
 
@@ -192,7 +199,8 @@ def run(ctx):
     # ... and, with put-locks, the slot of the job whose worker was killed comes back with the reaped worker (the job
     # itself was resolved by the scanner and has left the cache by then): otherwise apply_async blocks for good
     from .c10 import r10_4
-    r10_4(ctx)
+    from ..report import Except
+    r10_4(Except(ctx, ('reaper-called-outside-the-tick',)))
 
 
 _P = 'billiard/pool.py'
